@@ -34,6 +34,26 @@ const ZERO_COPY_THRESHOLD: usize = 4 * 1024;
 
 pub static VOID_IDENT: TStructIdentifier = TStructIdentifier { name: "void" };
 
+/// Validates a length prefix read from the wire against the bytes that are actually
+/// left, so that a corrupted or hostile length yields an error instead of a panic in
+/// `Bytes::split_to`.
+#[inline]
+pub(crate) fn check_wire_len(len: i64, remaining: usize) -> Result<usize, ThriftException> {
+    if len < 0 {
+        return Err(new_protocol_exception(
+            ProtocolExceptionKind::NegativeSize,
+            format!("negative length {}", len),
+        ));
+    }
+    if len as u64 > remaining as u64 {
+        return Err(new_protocol_exception(
+            ProtocolExceptionKind::InvalidData,
+            format!("length {} exceeds the {} remaining bytes", len, remaining),
+        ));
+    }
+    Ok(len as usize)
+}
+
 pub trait Message: Sized + Send {
     fn encode<T: TOutputProtocol>(&self, protocol: &mut T) -> Result<(), ThriftException>;
 
